@@ -206,7 +206,14 @@ class BaseStorage:
             tags=tags,
         )
         event.sign(self.service_privatekey.hex())
-        await self.add_event(event.to_json_object())
+        # events created by the relay itself may always be saved
+        auth_token = None
+        if self.authenticator:
+            auth_token = {
+                "pubkey": self.service_pubkey,
+                "roles": set(self.authenticator.actions.get(Action.save.value, ())),
+            }
+        await self.add_event(event.to_json_object(), auth_token=auth_token)
         return event
 
     async def get_auth_roles(self, pubkey: str):
